@@ -793,3 +793,64 @@ def defs_by_arm(fn, v, local, matcher, stop=frozenset()):
         inp, inf = d[1] in reach["pass"], d[1] in reach["fail"]
         out["pass" if inp and not inf else "fail" if inf and not inp else None].append(t)
     return out
+
+
+# ---------------- thin ciphersuite wrappers: sibling agreement ----------------
+
+SUITE_CRATES = ["frost_ed25519", "frost_ed448", "frost_p256", "frost_ristretto255", "frost_secp256k1", "frost_secp256k1_tr"]
+
+
+WRAPPER_ABSENT = {("frost_secp256k1_tr", "aggregate_custom")}
+
+
+def strip_sites(t):
+    """structural skeleton of a term: call sites and self types removed"""
+    if not isinstance(t, tuple):
+        return t
+    if t and t[0] == "call":
+        return ("call", t[1], tuple(strip_sites(x) for x in t[2]))
+    if t and t[0] == "op":
+        return ("op", t[1], tuple(strip_sites(x) for x in t[2]))
+    return tuple(strip_sites(x) for x in t)
+
+
+def wrappers(ctx, rel_names):
+    """for each relative path (e.g. 'keys::dkg::part1'): all six ciphersuite crates define it, their bodies are
+    structurally identical, and the body forwards the parameters in order to the frost-core function of that name"""
+    if ctx.core_only:
+        return
+    P = ctx.prog
+    for rel in rel_names:
+        terms_ = {}
+        for c in SUITE_CRATES:
+            f = P.fns.get("%s::%s" % (c, rel))
+            if f is None or not f.has_body:
+                if (c, rel) in WRAPPER_ABSENT:
+                    continue  # reviewed: the Taproot crate exposes no aggregate_custom wrapper
+                ctx.violation("WRAP", "%s::%s" % (c, rel), "anchor-missing", "ciphersuite wrapper %s::%s not found" % (c, rel))
+                continue
+            t = FnView.get(P, f).cx.local(0)
+            terms_[c] = strip_sites(t)
+        if len(terms_) < 2:
+            continue
+        ref = terms_.get("frost_ed25519") or list(terms_.values())[0]
+        odd = [c for c, t in terms_.items() if t != ref]
+        ctx.check(not odd, "WRAP", rel, "six-wrappers-agree",
+                  "the ciphersuite wrappers `%s` differ structurally: %s deviate(s) from frost_ed25519's (%s vs %s)"
+                  % (rel, odd, fmt(terms_[odd[0]])[:120] if odd else "", fmt(ref)[:120]))
+        # forwarding shape of the reference
+        name = rel.rsplit("::", 1)[-1]
+        f = P.fns.get("frost_ed25519::" + rel)
+        n = f.arg_count if f else 0
+        fwd = ref[0] == "call" and ref[1].startswith("frost_core::") and ref[1].rsplit("::", 1)[-1] == name and \
+            ref[2] == tuple(("arg", i + 1) for i in range(n))
+        special = {
+            "aggregate": lambda t: t[0] == "call" and t[1] == "frost_core::aggregate_custom" and t[2][:3] == (("arg", 1), ("arg", 2), ("arg", 3)) and t[2][3][0] == "agg" and t[2][3][3] == "FirstCheater",
+            "keys::generate_with_dealer": lambda t: t[0] == "call" and t[1] == "frost_core::keys::split" and t[2][1:] == (("arg", 1), ("arg", 2), ("arg", 3), ("arg", 4)) and
+            mentions(t[2][0], lambda s: s[0] == "call" and s[1].endswith("random_nonzero") and s[2] == (("arg", 4),)),
+            "round1::commit": lambda t: mentions(t, lambda s: s[0] == "call" and s[1].endswith("round1::preprocess") and s[2] == (("const", "u8", 1), ("arg", 1), ("arg", 2))),
+        }
+        ok = fwd or (rel in special and special[rel](ref))
+        ctx.check(ok, "WRAP", rel, "forwards-parameters-in-order",
+                  "ciphersuite wrapper `%s` does not forward its parameters, in order, to the frost-core function of the "
+                  "same name: %s" % (rel, fmt(ref)[:160]))
